@@ -21,7 +21,7 @@ def G(pid, mode, fn, m, n, props, kind="owned", bw=None, extra=None, timeout=900
             d["VCMAX"] = max(m, rows, cols)
     if extra:
         d.update(extra)
-    tag = "%dx%d%s.%s%s" % (m, n, (".bw%d" % bw) if bw is not None else "", kind, "".join(".%s%s" % (k.lower(), v) for k, v in sorted((extra or {}).items())))
+    tag = "%dx%d%s.%s%s%s" % (m, n, (".bw%d" % bw) if bw is not None else "", kind, "".join(".%s%s" % (k.lower(), v) for k, v in sorted((extra or {}).items())), "" if config == "host" else "." + config)
     t = list(tus or TUS)
     if naive_pluq:
         # solve.c is compiled with _mzd_pluq / mzd_pluq substituted by the library's own naive routine (same certificate contract, see DESIGN.md C06)
@@ -66,8 +66,10 @@ def c02(tier):
     P = ("C02", "C10", "C12")
     gs = [G("C02", "ECH_NAIVE", "mzd_echelonize_naive", 3, 5, P, extra={"FULL": 1}), G("C02", "ECH_NAIVE", "mzd_echelonize_naive", 3, 5, P, kind="view1", extra={"FULL": 0}),
           G("C02", "ECH_NAIVE", "mzd_echelonize_naive", 4, 3, P, extra={"FULL": 0}, timeout=1200),
-          G("C02", "TOP_ECH", "mzd_top_echelonize_m4ri", 3, 4, P, extra={"KPAR": 2}, timeout=1500),
-          G("C02", "ECH_M4RI", "mzd_echelonize_m4ri", 3, 4, P, extra={"FULL": 1, "KPAR": 2}, timeout=1500)]
+]
+    if tier == "thorough":   # measured: out of memory at 16 GB even at 3x4 (the M4RI block loop); attempts with more memory
+        gs += [G("C02", "TOP_ECH", "mzd_top_echelonize_m4ri", 3, 4, P, extra={"KPAR": 2}, timeout=3000, mem=40, slots=6),
+               G("C02", "ECH_M4RI", "mzd_echelonize_m4ri", 3, 4, P, extra={"FULL": 1, "KPAR": 2}, timeout=3000, mem=40, slots=6)]
     gs += prows_groups(tier)
     if tier == "thorough":
         gs += [G("C02", "ECH_M4RI", "mzd_echelonize_m4ri", 3, 5, P, extra={"FULL": 0, "KPAR": 1}, timeout=3600, slots=4),
@@ -92,8 +94,9 @@ def c04(tier):
     gs = []
     for mode, fn in (("TRSM_LL", "mzd_trsm_lower_left"), ("TRSM_UL", "mzd_trsm_upper_left"), ("TRSM_UR", "mzd_trsm_upper_right"), ("TRSM_LR", "mzd_trsm_lower_right")):
         gs.append(G("C04", mode, fn, 4, 4, P, bw=3))
-        gs.append(G("C04", mode, fn, 5, 5, P, kind="view1", bw=66, extra={"bkind": "view1"}, timeout=1500))
+        gs.append(G("C04", mode, fn, 3, 3, P, kind="view1", bw=4, extra={"bkind": "view1"}))
         if tier == "thorough":
+            gs.append(G("C04", mode, fn, 5, 5, P, kind="view1", bw=66, extra={"bkind": "view1"}, timeout=3600))
             gs.append(G("C04", mode, fn, 6, 6, P, bw=130, timeout=3600))
             gs.append(G("C04", mode, fn, 66, 66, P, bw=2, timeout=5400, slots=4, mem=32))
     return gs
@@ -101,10 +104,11 @@ def c04(tier):
 
 def c05(tier):
     P = ("C05", "C10", "C12")
-    gs = [G("C05", "INV_NAIVE", "mzd_invert_naive", 3, 3, P), G("C05", "INV_M4RI", "mzd_inv_m4ri", 3, 3, P, extra={"KPAR": 0}, timeout=1500),
-          G("C05", "TRTRI", "mzd_trtri_upper", 4, 4, P, timeout=1500)]
-    if tier == "thorough":
-        gs += [G("C05", "INV_M4RI", "mzd_inv_m4ri", 4, 4, P, extra={"KPAR": 2}, timeout=3600, slots=4), G("C05", "TRTRI", "mzd_trtri_upper", 6, 6, P, timeout=3600)]
+    gs = [G("C05", "INV_NAIVE", "mzd_invert_naive", 3, 3, P), G("C05", "INV_NAIVE", "mzd_invert_naive", 2, 2, P, kind="view1"),
+          G("C05", "TRTRI", "mzd_trtri_upper", 4, 4, P, timeout=1500), G("C05", "TRTRI", "mzd_trtri_upper", 5, 5, P, kind="view1", timeout=1500)]
+    if tier == "thorough":   # mzd_inv_m4ri: the unwinding refinement did not converge at 3x3 within 180 rounds (M4RI elimination of the augmented matrix)
+        gs += [G("C05", "INV_M4RI", "mzd_inv_m4ri", 3, 3, P, extra={"KPAR": 0}, timeout=5400, slots=4), G("C05", "INV_M4RI", "mzd_inv_m4ri", 2, 2, P, extra={"KPAR": 2}, timeout=3600, slots=4),
+               G("C05", "TRTRI", "mzd_trtri_upper", 6, 6, P, timeout=3600)]
     return gs
 
 
